@@ -82,8 +82,8 @@ ASSUMPTIONS = [
     "x86: an in/out operand must be the last use of its value (documented precondition, established by "
     "x86-regalloc-legalize and re-checked by the harness); values used only by non-allocatable ops are out of "
     "the domain (the allocator ignores such ops)",
-    "input functions in which two pre-allocated values already share a register while both are live are "
-    "out of the domain (discarded)",
+    "input functions in which two pre-allocated values (copy-related or not) already share a register while both "
+    "are live are out of the domain (discarded)",
 ]
 
 RV_INT_PRE = ["t0", "a0", "t1", "a1", "t2", "a2", "s1", "a3", "t3", "a4", "s2", "t4", "a5", "t5", "a6",
@@ -819,10 +819,11 @@ class Info:
 class Live:
     """Backward liveness + interference over one function (own implementation)."""
 
-    def __init__(self, fn, info, arch, check_pre=False, classic=False):
+    def __init__(self, fn, info, arch, check_pre=False, classic=False, copy_exempt=True):
         # classic: the loop op reads all its inits and the yield reads all its operands (the allocator's view);
         # otherwise they only count as read if the block argument / loop result is live
         self.fn, self.info, self.arch, self.classic = fn, info, arch, classic
+        self.copy_exempt = copy_exempt and not classic
         self.conflicts, self.seen = [], set()
         self.pre_violations = []
         self.check_pre = check_pre
@@ -841,7 +842,7 @@ class Live:
         if k in self.seen:
             return
         self.seen.add(k)
-        if self.info.copy.same(a, b) and not self.classic:
+        if self.copy_exempt and self.info.copy.same(a, b):
             return      # copy-related values hold the same value (not exempted in the allocator's view)
         self.conflicts.append((a, b, where))
 
@@ -1276,7 +1277,9 @@ def run_one(h, recipe):
     with quiet():
         from xdsl.backend.register_allocatable import RegisterAllocatableOperation
         seen_by_allocator = {regkey(t) for t in RegisterAllocatableOperation.all_used_registers(fn.body)}
-    ilive = Live(fn, iinfo, arch, check_pre=True).run()
+    # (no exemption for copies here: an in/out op on one of two copy-related values pre-assigned to the same
+    # register would be forced to clobber the other one)
+    ilive = Live(fn, iinfo, arch, check_pre=True, copy_exempt=False).run()
     feats = recipe_features(recipe)
     if ilive.conflicts:
         h.case(recipe, False, label=f"{arch}:input_prealloc_conflict")
